@@ -73,6 +73,13 @@ CHECKS.update({
                 note="Trusted: swc. Feature configurations: default and import-esm (format/no-serde-compat listed as limits until built)."),
 })
 
+CHECKS.update({
+    "C12": dict(engine="E2 typegen-compile (lib, lib3 corpora)", category="exploration", design="§6 C12",
+                technique="exhaustive enumeration of built-in TS impls (all array lengths 0..=65, tuple arities 1..=10, map key types, wrappers, feature crates) x representative values; membership of serde_json output in the reported type; witnesses through Deserialize; dependency sets",
+                text="Every supported library type: serde_json output of representative values inhabits the reported TypeScript type, witnesses of free-form types deserialize, and a field of that type contributes exactly its type arguments as dependencies.",
+                note="Trusted: serde/serde_json impls of the library types; types without serde impl are checked for the documented shape only."),
+})
+
 NOT_YET = {
 }
 
